@@ -534,9 +534,79 @@ fn nonce_many(rep: &Report, key: &[u8; 32], cs: u32, p: &[u8]) {
     }
 }
 
+/// `kv fork-child <draws> <seed>`: a single-threaded process draws randomness `draws` times, forks, and both sides then
+/// generate a private key, draw 32 bytes and encrypt one file with the ephemeral and payload keys left to the library.
+/// Each side prints one line: `P|C <private key> <random> <ephemeral field> <sha256 of the file>`.
+pub fn fork_child_main(a: &[String]) -> ! {
+    let draws: usize = a[0].parse().unwrap_or(1);
+    let seed: u64 = a[1].parse().unwrap_or(1);
+    let ids = idents(seed);
+    for _ in 0..draws {
+        let _ = kestrel_crypto::PrivateKey::generate();
+    }
+    let pid = unsafe { libc::fork() };
+    if pid < 0 {
+        std::process::exit(4);
+    }
+    let who = if pid == 0 { "C" } else { "P" };
+    let sk = kestrel_crypto::PrivateKey::generate();
+    let rnd = kestrel_crypto::secure_random(32);
+    let mut out = Vec::new();
+    let mut src: &[u8] = b"the same plaintext on both sides";
+    let ok = kestrel_crypto::encrypt::key_encrypt(&mut src, &mut out, &ids[0].private(), &ids[0].public(), &ids[1].public(), None, None, None, kestrel_crypto::AsymFileFormat::V1).is_ok();
+    let line = format!("{} {} {} {} {} {}\n", who, hx(sk.as_bytes()), hx(&rnd), if out.len() >= 36 { hx(&out[4..36]) } else { String::new() }, hx(&r::sha256(&out)), ok);
+    unsafe {
+        libc::write(1, line.as_ptr() as *const libc::c_void, line.len());
+    }
+    if pid == 0 {
+        unsafe { libc::_exit(0) }
+    }
+    let mut st = 0;
+    unsafe {
+        libc::waitpid(pid, &mut st, 0);
+    }
+    std::process::exit(0);
+}
+
+/// Freshness across fork(): whatever the library keeps between draws must not make a parent and its child hand out the
+/// same values. Forks after 0, 1, 2 and 5 earlier draws.
+fn across_fork(rep: &Report) {
+    let exe = std::env::current_exe().unwrap_or_else(|_| crate::report::machinery("current_exe"));
+    for draws in [0usize, 1, 2, 5] {
+        rep.eval(1);
+        rep.nontrivial(format!("across-fork-{}", draws).as_bytes());
+        let o = match std::process::Command::new(&exe).args(["fork-child", &draws.to_string(), &rep.seed.to_string()]).stdin(std::process::Stdio::null()).stderr(std::process::Stdio::null()).output() {
+            Ok(o) => o,
+            Err(e) => crate::report::machinery(&format!("cannot start the fork child: {}", e)),
+        };
+        let text = String::from_utf8_lossy(&o.stdout).to_string();
+        let rows: Vec<Vec<&str>> = text.lines().map(|l| l.split(' ').collect()).collect();
+        let p = rows.iter().find(|r0| r0[0] == "P");
+        let c = rows.iter().find(|r0| r0[0] == "C");
+        let case = json!({"kind":"fork","draws":draws});
+        match (p, c) {
+            (Some(p), Some(c)) if p.len() == 6 && c.len() == 6 && p[5] == "true" && c[5] == "true" => {
+                for (i, what) in [(1usize, "generated private key"), (2, "32 random bytes"), (3, "ephemeral public key of the encrypted file"), (4, "encrypted file")] {
+                    if p[i] == c[i] {
+                        rep.violation("fork/parent-and-child-share-a-value", case.clone(), format!("after {} draw(s) and a fork(), parent and child both obtained the same {}: {}", draws, what, p[i]));
+                        break;
+                    }
+                }
+            }
+            _ => rep.violation("fork/operation-failed", case, format!("the fork child did not report both sides: status {:?}, output {:?}", o.status, text)),
+        }
+    }
+    rep.extra("across_fork_cases", json!(4));
+}
+
+fn fx_pub_entry(seed: u64, name: &str) -> String {
+    proc::keyring_entry(name, &r::encode_pk(&r::x25519_base(&derive32(seed, &format!("c07-contact-{}", name)))), None)
+}
+
 pub fn run(rep: &'static Report) {
     let seed = rep.seed;
     rep.set_rule("E-GRAPH over histories: breadth-first search (stateright) over all operation sequences up to the length bound from {lib key_encrypt with randomness left to the implementation, PrivateKey::generate, kestrel encrypt, kestrel password encrypt, kestrel key generate, kestrel key change-pass}, all with identical inputs; in every state the whole history is executed on the real code/CLI and all fresh values (ephemeral keys, payload keys, file keys recovered by REF, salts, private keys) must be pairwise distinct and distinct from given values. Plus RNG-seam analysis (every delivered byte perturbed) and, per file, every record opens under exactly its own index. distinct non-trivial = histories + seam ops + (cs, L, partition) points");
+    rep.rule_add("Generation onto keyrings holding only public keys; fork() after 0/1/2/5 draws: parent and child obtain different keys, random bytes, ephemeral keys.");
     rep.rule_add("every getrandom answer schedule per CLI operation (run twice); 4 fresh threads x 3 rounds; 4 keys appended to one keyring.");
     rep.assume("quality of getrandom itself is trusted; CLI operations use the real CSPRNG, a violating history is re-executed once and the verdict must not flip");
     let max_len = rep.tier.pick(3, 4);
@@ -685,6 +755,56 @@ pub fn run(rep: &'static Report) {
         }
     }
 
+    // key generation onto keyrings that so far hold only PUBLIC keys (a contacts file): two copies of the same file, the
+    // same name and password for both, and a second generation into the first copy -- three salts and three private
+    // keys, pairwise distinct and none all-zero
+    {
+        let contacts = format!("{}\n{}", fx_pub_entry(seed, "carol"), fx_pub_entry(seed, "dave"));
+        let attempt = || -> Result<Vec<(String, Vec<u8>)>, String> {
+            let mut vals: Vec<(String, Vec<u8>)> = vec![];
+            let scs = [Scratch::new(), Scratch::new()];
+            for (ci, sc) in scs.iter().enumerate() {
+                sc.write("contacts.txt", contacts.as_bytes());
+                let rounds = if ci == 0 { 2 } else { 1 };
+                for g in 0..rounds {
+                    let out = proc::run(&Cmd::new(&["key", "generate", "-o", "contacts.txt", "--env-pass"]).env("KESTREL_PASSWORD", "same-pw").stdin(b"me\n"), &sc.0);
+                    if !out.ok() {
+                        return Err(format!("key generate onto a public-only keyring failed: {}", out.summary()));
+                    }
+                    let txt = String::from_utf8_lossy(&sc.read("contacts.txt").unwrap_or_default()).to_string();
+                    if !txt.starts_with(&contacts) {
+                        return Err("the existing contacts are not a prefix of the keyring after generation".into());
+                    }
+                    let l = txt.lines().filter_map(|l| l.strip_prefix("PrivateKey = ")).last().ok_or("no PrivateKey line")?.trim().to_string();
+                    let blob = r::b64_decode(&l).filter(|b| b.len() == 84).ok_or("PrivateKey is not an 84-byte base64 string")?;
+                    vals.push((format!("copy {} generation {}: salt", ci + 1, g + 1), blob[4..36].to_vec()));
+                    let sk = r::unlock_key(&blob, b"same-pw").ok_or("generated key does not unlock (REF)")?;
+                    vals.push((format!("copy {} generation {}: private key", ci + 1, g + 1), sk.to_vec()));
+                }
+            }
+            Ok(vals)
+        };
+        rep.eval(3);
+        rep.nontrivial(b"public-only-keyring-generation");
+        match attempt().or_else(|_| attempt()) {
+            Err(e) => rep.violation("append/public-only-keyring", json!({"kind":"append"}), e),
+            Ok(vals) => {
+                'o: for i in 0..vals.len() {
+                    if vals[i].1.iter().all(|&b| b == 0) {
+                        rep.violation("append/salt-or-key-reused", json!({"kind":"append"}), format!("generation onto a keyring holding only public keys: [{}] is all zero", vals[i].0));
+                        break;
+                    }
+                    for j in 0..i {
+                        if vals[i].1 == vals[j].1 {
+                            rep.violation("append/salt-or-key-reused", json!({"kind":"append"}), format!("generation onto keyrings holding only public keys: [{}] == [{}] = {}", vals[j].0, vals[i].0, hx(&vals[i].1)));
+                            break 'o;
+                        }
+                    }
+                }
+            }
+        }
+    }
+
     // the same under passwords of particular shapes (empty, one blank, one letter, exactly / just over one HMAC block, long):
     // two generations into one ring, a change of the first key's password to the very same password, and two password
     // encryptions of one plaintext -- every salt and every private key is new, within one password and across all of them
@@ -764,6 +884,7 @@ pub fn run(rep: &'static Report) {
         rep.extra("password_shape_fresh_values", json!(all.len()));
     }
 
+    across_fork(rep);
     seam_check(rep, &ctx.fx);
     rng_fault_sweep(rep, &ctx.fx);
     nonblocking_stdin(rep, &ctx.fx);
@@ -870,6 +991,7 @@ pub fn replay(rep: &'static Report, case: &Value) {
         }
         "seam" => seam_check(rep, &Fixture::new(rep.seed)),
         "rngfault" => rng_fault_sweep(rep, &Fixture::new(rep.seed)),
+        "fork" => across_fork(rep),
         "threads" | "append" | "repetition" => {
             println!("  re-running C07");
             run(rep);
